@@ -13,6 +13,7 @@ def dispatch (op : String) (args : List String) : String :=
   match op with
   | "prg" => Driver.Prg.run args
   | "prgrestore" => Driver.Prg.runRestore args
+  | "prgtape" => Driver.Prg.runTape args
   | "fr.dec" => Driver.Bls.frDec args
   | "pk.dec" => Driver.Bls.pkDec args
   | "e1.dec" => Driver.Bls.e1Dec args
